@@ -58,7 +58,7 @@ BINARIES = {
     "c07": ("asan", ["props/c07_rawvec_buffer.cpp"], [], [], []),
     "c09": ("asan", ["props/c09_tree.cpp", "seams/new_delete.cpp"], [], [], []),
     "c11": ("asan", ["props/c11_intrusive_signal.cpp", "seams/new_delete.cpp"], [], [], []),
-    "c12": ("asan", ["props/c12_parse_stream.cpp"], [], [], []),
+    "c12": ("asan", ["props/c12_parse_stream.cpp", "seams/new_delete.cpp"], [], [], []),
     "c15": ("asan", ["props/c15_roundtrip.cpp", "seams/new_delete.cpp"], [], [], []),
     "c01": ("asan", ["props/c01_total_io.cpp", "seams/new_delete.cpp",
                      "seams/stat_interpose.cpp"], [], ["-ldl"], []),
